@@ -398,6 +398,14 @@ func (b *Bucket) MoveBucket(key []byte, dstBucket *Bucket) (err error) {
 		return errors.ErrIncompatibleValue
 	}
 
+	// A bucket can't be moved into itself or into one of its own
+	// sub-buckets: that would detach the whole subtree from the root.
+	child := b.buckets[string(newKey)]
+	if child != nil && (child == dstBucket || child.hasCachedDescendant(dstBucket)) {
+		lg.Errorf("The target bucket (%s) is inside the bucket %s being moved", dstBucket, newKey)
+		return errors.ErrSameBuckets
+	}
+
 	// remove the sub-bucket from the source bucket
 	delete(b.buckets, string(newKey))
 	c.node().del(newKey)
@@ -406,7 +414,24 @@ func (b *Bucket) MoveBucket(key []byte, dstBucket *Bucket) (err error) {
 	newValue := cloneBytes(v)
 	curDst.node().put(newKey, newKey, newValue, 0, common.BucketLeafFlag)
 
+	// Keep the already opened bucket, so that changes made to it earlier in
+	// this transaction are written out when the destination bucket spills.
+	if child != nil {
+		dstBucket.buckets[string(newKey)] = child
+	}
+
 	return nil
+}
+
+// hasCachedDescendant reports whether target is one of the sub-buckets
+// (at any depth) that have been opened through b in this transaction.
+func (b *Bucket) hasCachedDescendant(target *Bucket) bool {
+	for _, child := range b.buckets {
+		if child == target || child.hasCachedDescendant(target) {
+			return true
+		}
+	}
+	return false
 }
 
 // Inspect returns the structure of the bucket.
